@@ -136,7 +136,65 @@ func (c15) Plan(tier string) []fw.Unit {
 	for sh := 0; sh < 8; sh++ {
 		us = append(us, fw.Unit{Check: "C15", Kind: "within", Tier: tier, Spec: fw.Spec(enumSpec{Shard: sh, Shards: 8})})
 	}
+	us = append(us, fw.Unit{Check: "C15", Kind: "empty-rows", Tier: tier, Spec: fw.Spec(enumSpec{})})
 	return append(us, fw.Unit{Check: "C15", Kind: "key-pairs", Tier: tier, Spec: fw.Spec(enumSpec{})})
+}
+
+// c15EmptyRows: an event without any field is an event like any other (its columns are NULL): inserting {} at a
+// position must give exactly what inserting a row with one irrelevant column gives there. No PARTITION BY, so the
+// event sits in the one sequence.
+func c15EmptyRows() fw.Result {
+	a := newAcc("C15", "cep-empty-rows")
+	pats := c15Patterns()
+	d := c15Defines()[0]
+	for pi, p := range pats {
+		if pi%2 == 1 {
+			continue
+		}
+		sql := strings.Replace(c15SQL(p, d, ref.SkipPastLast, false), "PARTITION BY k ", "", 1)
+		for L := 1; L <= 3; L++ {
+			sequences(L, 3, func(vals []int) {
+				vals = append([]int(nil), vals...)
+				for pos := 0; pos <= L; pos++ {
+					run := func(filler Row) (string, string) {
+						r := detExec(sql, detOpts{Eager: true, Horizon: 50 * vtime.Millisecond}, func(e *Env) {
+							ts := 0
+							for i := 0; i <= L; i++ {
+								if i == pos {
+									ts++
+									e.Emit(copyVal(filler).(map[string]any))
+								}
+								if i < L {
+									ts++
+									e.Emit(Row{"k": "a", "id": i + 1, "ts": ts, "v": float64(vals[i] + 1)})
+								}
+							}
+						})
+						var got []string
+						for _, b := range r.Batches {
+							for _, row := range b {
+								got = append(got, fmt.Sprintf("%v:%v-%v", row["mn"], row["f"], row["l"]))
+							}
+						}
+						return strings.Join(got, ","), r.ExecErr + r.Status.String()
+					}
+					g1, e1 := run(Row{})
+					g2, e2 := run(Row{"zz": 1})
+					a.r.Evaluations += 2
+					a.r.States++
+					a.r.Nontrivial++
+					a.outcome(g1)
+					if g1 != g2 || e1 != e2 {
+						a.fail("C15|empty-row-not-an-event|pattern="+p.String(), fmt.Sprintf("%s over v=%v with a field-less event inserted at position %d reports %q (%s); with a row carrying only an unrelated column there it reports %q (%s)", sql, vals, pos, g1, e1, g2, e2),
+							map[string]any{"sql": sql, "values": vals, "position": pos}, g2, g1)
+						return
+					}
+				}
+			})
+		}
+	}
+	a.sample(map[string]any{"filler_rows": []string{"{}", "{zz:1}"}, "max_len": 3})
+	return a.result()
 }
 
 // c15Within: WITHIN '2s' over events one second apart (a match spans at most three rows): every pattern x the
@@ -299,6 +357,9 @@ func (c15) Run(u fw.Unit) fw.Result {
 	}
 	if u.Kind == "within" {
 		return c15Within(u)
+	}
+	if u.Kind == "empty-rows" {
+		return c15EmptyRows()
 	}
 	sp := parseEnum(u)
 	a := newAcc("C15", "cep")
